@@ -223,12 +223,16 @@ fn derivative_names(tape: &[u32], st: &mut Stats) -> CaseResult {
     let mut t = Tape::new(tape);
     let n = 1 + t.choose(20);
     let mut names: Vec<String> = vec![];
+    let mut attempts = 0;
     while names.len() < n {
-        let name = match t.choose(3) {
+        attempts += 1;
+        // an exhausted (shrunk) tape keeps drawing the same name: fall back to fresh ones
+        let name = if attempts > 100 { format!("w{}", 100 + names.len()) } else { String::new() };
+        let name = if !name.is_empty() { name } else { match t.choose(3) {
             0 => t.pick(&BARE_NAMES).to_string(),
             1 => t.pick(&BRACED_NAMES).to_string(),
             _ => format!("w{}", t.choose(40)),
-        };
+        } };
         let float_ops = ["sin", "cos", "e", "E", "PI", "π", "τ", "TAU", "max", "min", "abs", "log", "ln", "exp"];
         if !names.contains(&name) && !float_ops.contains(&name.as_str()) && !name.starts_with("max") && !name.starts_with("min") && !name.starts_with("atan2") {
             names.push(name);
@@ -286,6 +290,27 @@ fn derivative_names(tape: &[u32], st: &mut Stats) -> CaseResult {
         let vals: Vec<f64> = (0..sorted.len()).map(|i| 0.5 + i as f64 * 0.25).collect();
         ex_msg(f2.eval(&vals))?;
         ex_msg(d2.eval(&vals))?;
+        // arity of derived expressions (they may have folded to a number but still list names)
+        let n = sorted.len();
+        let short: Vec<f64> = vals[..n - 1].to_vec();
+        let long: Vec<f64> = vals.iter().cloned().chain([9.0, 9.5]).collect();
+        let checks: Vec<(&'static str, bool, bool)> = vec![
+            ("FlatEx derivative: eval with n-1 values", f2.eval(&short).is_err(), true),
+            ("FlatEx derivative: eval with n+2 values", f2.eval(&long).is_err(), true),
+            ("FlatEx derivative: eval_relaxed with n-1 values", f2.eval_relaxed(&short).is_err(), true),
+            ("FlatEx derivative: eval_relaxed with n+2 values", f2.eval_relaxed(&long).is_ok(), true),
+            ("FlatEx derivative: eval_vec with n-1 values", f2.eval_vec(short.clone()).is_err(), true),
+            ("FlatEx derivative: eval_iter with n+2 values", f2.eval_iter(long.clone().into_iter()).is_err(), true),
+            ("DeepEx derivative: eval with n-1 values", d2.eval(&short).is_err(), true),
+            ("DeepEx derivative: eval with n+2 values", d2.eval(&long).is_err(), true),
+            ("DeepEx derivative: eval_relaxed with n-1 values", d2.eval_relaxed(&short).is_err(), true),
+            ("DeepEx derivative: eval_relaxed with n+2 values", d2.eval_relaxed(&long).is_ok(), true),
+        ];
+        for (what, got, want) in checks {
+            if got != want {
+                return Err(format!("arity: {what} is {}", if what.contains("relaxed with n+2") { "rejected" } else { "accepted" }));
+            }
+        }
         // operator application on a derivative (which often vanished but still carries its names)
         let o = ex_msg(exmex::DeepEx::<f64>::parse(other_text))?;
         let uvals: Vec<f64> = (0..union.len()).map(|i| 0.5 + i as f64 * 0.25).collect();
@@ -363,7 +388,7 @@ pub fn def() -> PropDef {
             },
             SubCheck {
                 name: "derivative_names",
-                rule: "tape -> 1-20 names (incl. braced) x sum/product of simple terms (default float operators) x two indices; partial, partial.partial, partial_iter on FlatEx and DeepEx keep exactly the antiderivative's list and evaluate with the same slice; the (often vanished) second derivative combined with a second expression by + - * / and operate_binary lists the sorted union and evaluates with that many values; non-trivial = >=2 variables",
+                rule: "tape -> 1-20 names (incl. braced) x sum/product of simple terms (default float operators) x two indices; partial, partial.partial, partial_iter on FlatEx and DeepEx keep exactly the antiderivative's list and evaluate with the same slice; the derivatives obey the arity rules of every evaluation entry point (n-1 and n+2 values); the (often vanished) second derivative combined with a second expression by + - * / and operate_binary lists the sorted union and evaluates with that many values; non-trivial = >=2 variables",
                 kind: Kind::Tape { len: 200, quick: 3_000, thorough: 200_000, f: derivative_names },
             },
         ],
